@@ -36,6 +36,15 @@ def pinned_api() -> dict:
     return _PINNED
 
 
+def body_hash(fn: ast.FunctionDef) -> str:
+    """hash of a function's parameters and body (docstring and own name excluded): equal for a function that was merely renamed"""
+    import hashlib
+    body = _docless(fn.body)
+    txt = ast.dump(fn.args) + "|" + "|".join(ast.dump(st) for st in body)
+    txt = txt.replace(f"'{fn.name}'", "'<self-name>'")
+    return hashlib.sha1(txt.encode()).hexdigest()[:16]
+
+
 def _docless(body: list) -> list:
     return [st for st in body if not (isinstance(st, ast.Expr) and isinstance(st.value, ast.Constant) and isinstance(st.value.value, str))]
 
@@ -460,9 +469,28 @@ def _count_loads(e: ast.AST, name: str) -> int:
 
 def inline_new_helpers(tree: ast.Module, modname: str, package_defs: Optional[dict] = None) -> ast.Module:
     """package_defs: {function name: number of definitions in the whole package} (a helper defined twice may be overridden: not inlined)"""
-    known = set(pinned_api().get(modname, []))
+    pinned = pinned_api().get(modname, {})
+    known = set(pinned)
     if not pinned_api():
         return tree       # no pinned list: do nothing
+    # a pinned function that is gone and a new private function with the same body: a rename, not an extraction -- leave it alone (the rules
+    # identify such helpers by role)
+    present = set()
+    for st in tree.body:
+        if isinstance(st, ast.FunctionDef):
+            present.add(st.name)
+        elif isinstance(st, ast.ClassDef):
+            present |= {f"{st.name}.{m.name}" for m in st.body if isinstance(m, ast.FunctionDef)}
+    gone_hashes = {h for q, h in (pinned.items() if isinstance(pinned, dict) else []) if q not in present}
+    renamed = set()
+    for st in tree.body:
+        if isinstance(st, ast.FunctionDef) and st.name not in known and body_hash(st) in gone_hashes:
+            renamed.add(st.name)
+        elif isinstance(st, ast.ClassDef):
+            for m in st.body:
+                if isinstance(m, ast.FunctionDef) and f"{st.name}.{m.name}" not in known and body_hash(m) in gone_hashes:
+                    renamed.add(f"{st.name}.{m.name}")
+    known |= renamed
     for _ in range(MAX_ROUNDS):
         helpers = {}
         for st in tree.body:
